@@ -148,11 +148,46 @@ class Verifier(Engine):
             return [('bin', '==>', ast[2], x) for x in self.split_conj(ast[3])]
         return [ast]
 
+    def _frame_check_rest(self, fr, st, c, fn, whole, extra):
+        locs = {}
+        entry_env = fr.entry_env
+        for m in extra:
+            e = m.strip()
+            root = e.split('.')[0].split('[')[0]
+            if root in entry_env['vars']:
+                for key, idx, srt in self.ev_lval(cparse.parse_expr(e), entry_env): locs.setdefault(key, []).append(idx)
+            else:
+                whole |= self.mod_entry_keys(e, fn, c)
+        alloc0 = fr.entry.alloc
+        bykey = {}
+        for key, idx in st.writes:
+            if key in whole: continue
+            bykey.setdefault(key, []).append(idx)
+        for key, idxs in bykey.items():
+            goals = []
+            for idx in idxs:
+                if idx is None: goals.append(BoolVal(False)); continue
+                first = idx[0] if idx else None
+                alts = []
+                if first is not None and z3.is_expr(first): alts.append(first > alloc0)
+                for a in locs.get(key, []):
+                    if len(a) <= len(idx): alts.append(And(*[x == y for x, y in zip(a, idx) if y is not None]) if a else BoolVal(True))
+                goals.append(Or(*alts) if alts else BoolVal(False))
+            self.oblige(st, None, 'frame', key, And(*goals), None, text='writes to %s stay within modifies' % key)
+
     def frame_check(self, fr, st, c, fn):
         """every heap write on this path is to a fresh object or allowed by `modifies`"""
         whole = set(); locs = {}
         entry_env = fr.entry_env
-        if c.modifies and any(m.strip() == 'anything' for m in c.modifies): return
+        if c.modifies and any(m.strip() in ('anything', 'world') for m in c.modifies):
+            # only thread-local ghost state is framed
+            if any(m.strip() == 'anything' for m in c.modifies): return
+            wk = self.world_keys()
+            whole = set(wk)
+            for key, idx in st.writes:
+                if key.startswith(('mem:', 'cell:', 'sync/atomic.Value', 'chan.', 'global:')): whole.add(key)
+            extra = [m for m in c.modifies if m.strip() not in ('world',)]
+            return self._frame_check_rest(fr, st, c, fn, whole, extra)
         for m in (c.modifies or []):
             e = m.strip()
             if e == 'nothing': continue
